@@ -11,6 +11,9 @@ CLAIMED = {
  "C19": dict(technique="TLA+ spec Names.tla (helpers defined from one parser): TLC model checking + TLC-generated name/pair vectors replayed into labels.go/defaults.go/dnsutil + trace validation of recorded helper results",
              text="Every helper is defined in TLA+ from Parse(s).labels/starts; TLC enumerates all names over a 7-octet alphabet up to a size bound and all pairs, the real helpers must return the spec's values; helper results recorded on random long names are validated by TLC.",
              note="Trusted: TLC, JSON bridge. Names are in the library's own presentation form.", ref="4/C19"),
+ "C09": dict(technique="TLA+ spec Truncate.tla: relation TruncOK over measurable facts + abstract algorithm TruncImpl model-checked against it (with must-fail broken variants); TLC-enumerated (reply shape, size selector) cases executed on the real Truncate, facts judged by TLC (Trace_Truncate); random replies likewise",
+             text="The statement is written once as the relation TruncOK (prefixes, later-sections-empty, OPT kept, TC iff dropped, fits=>keep, fits-after, first-dropped-would-not-fit). TLC proves an abstract model of msg_truncate.go satisfies it for every small message x size and that three broken variants do not; every enumerated (shape, exact-fit -1/0/+1 size) case and tens of thousands of random replies are run through the real Truncate and the measured facts are judged by TLC with the same relation.",
+             note="Trusted: TLC, JSON bridge, packed lengths measured with the real Pack (fidelity of Pack is C01/C04/C08). 'Fits' means fits when packed with compression.", ref="4/C09"),
 }
 PENDING = "check not built yet in this round (the specification module is planned in DESIGN.md section 4); will be claimed when its check runs clean"
 
